@@ -3,10 +3,11 @@
 // empty in every method; Duplicate / Span / Partition deliver both complete sequences for
 // every interleaving of HasNext/Next between the two sides, pulling each source element once.
 //
-// Three case families: (1) scripted call patterns on one iterator built from a pure-data
+// Four case families: (1) scripted call patterns on one iterator built from a pure-data
 // spec (base constructor, 0..3 stacked combinators, optional typed final combinator);
 // (2) the zero-value Iterator through every method and package function; (3) two-sided
-// scripts on Duplicate/Span/Partition — exhaustive for n <= 4 (batches 0..7), PRNG for n <= 40.
+// scripts on Duplicate/Span/Partition — exhaustive for n <= 4 (batches 0..7), PRNG for n <= 40;
+// (4) the protocol script over adversarial shapes of the backing structure (shapes.go).
 package main
 
 import (
@@ -29,9 +30,30 @@ func failf(kind, format string, a ...any) *failure {
 
 const exBatches = 8
 
+// batch layout: 0..exBatches-1 enumerated two-sided scripts, then the PRNG batches of families
+// 1-3, then (appended, so that the older PRNG streams keep their batch numbers) the batches of
+// family 4 (adversarial shapes).
+func randBatches(tier string) int {
+	if tier == "thorough" {
+		return 248
+	}
+	return 24
+}
+
+func shapeBatches(tier string) int {
+	if tier == "thorough" {
+		return 32
+	}
+	return 8
+}
+
 func runCase(w *vrt.W, i int) {
 	if w.Batch < exBatches {
 		runExhaustive(w, i)
+		return
+	}
+	if w.Batch >= exBatches+randBatches(w.Tier) {
+		runShape(w, i)
 		return
 	}
 	r := w.Rand(i)
@@ -60,6 +82,9 @@ func allHitNames() []string {
 	for _, n := range zeroNames() {
 		set[n] = true
 	}
+	for _, n := range shapeHitNames() {
+		set[n] = true
+	}
 	for _, k := range twoKinds {
 		set["two."+k] = true
 		set["two.exhaustive."+k] = true
@@ -78,15 +103,20 @@ func main() {
 	vrt.Main(vrt.Config{
 		Property: "C20",
 		Batches: func(tier string) int {
-			if tier == "thorough" {
-				return exBatches + 248
-			}
-			return exBatches + 24
+			return exBatches + randBatches(tier) + shapeBatches(tier)
 		},
 		Cases: func(tier string, b int) int {
 			if b < exBatches {
 				n := len(exConfigs())
 				return (n - b + exBatches - 1) / exBatches
+			}
+			if b >= exBatches+randBatches(tier) {
+				// every shape batch runs the enumerated (kind x shape class x build / removal / gc)
+				// combinations with its own PRNG parameters, then PRNG combinations
+				if tier == "thorough" {
+					return numFixedShapes() + 6000
+				}
+				return numFixedShapes() + 1500
 			}
 			if tier == "thorough" {
 				return 30000
@@ -98,15 +128,21 @@ func main() {
 				runCase(w, i)
 			}
 		},
-		Rule: "three families. (1) single iterator: spec = base constructor (every constructor of package iterator, fp.IteratorOfSeq/Option/GoMap/GoSet, seq/option/try.Iterator, Pull, Generate+Take, the zero value, iterators/Keys/Values of immutable, mutable, UnsafeGoMap/UnsafeGoSet, CopyOnWriteMap, zero fp.Map/fp.Set) over an input of 0..40 ints, 0..3 stacked combinators (Take, TakeWhile, Drop, DropWhile, Filter, FilterNot, TapEach, Appended, Concat in 4 shapes, Map, FlatMap, iterator.Map/FlatMap/FilterMap/Flatten/Concat/Scan/Lift/Compose/Pull/ToList round trips, one side of Duplicate/Span/Partition, Ap/Map2/Flap/Method1 with a twin-drain reference) and optionally a typed final Zip/Zip3/ZipWithIndex; the script calls HasNext 0..3 times before every Next (0 = Next without HasNext), then after exhaustion alternates HasNext (must stay false) and Next (must panic). Reference: plain-slice semantics; canonical drain of an identically built twin where the combinator shares a single-use operand or the order is the trie's; multiset with no-duplicate/no-skip for Go-map-backed iterators. (2) zero value: every method of fp.Iterator[int]{} and every package function applied to it must behave as on an empty iterator without panicking (only Next may panic). (3) two-sided: Duplicate/Span/Partition over an instrumented source; events (side, HasNext|Next); batches 0..7 enumerate, for every n <= 4, every predicate mask and every interleaving of the two sides' Next events, every assignment of a HasNext pattern (none / own side once / own side twice / other side then own side) to each Next event (3 patterns in quick for 8-event scripts, 4 otherwise); the other batches draw PRNG scripts for n <= 40 with runs, probes of Next on an exhausted side and a final drain in either order. Both sides must deliver their reference sequences in order, the source must be pulled exactly n times once both sides are drained and never at exhaustion. distinct_nontrivial counts distinct fingerprints of (family 1) kind chain + HasNext pattern with at least one redundant HasNext and non-empty reference, and (family 3) kind + n + predicate + event script in which the leading side (the one with more Next calls) changes at least once — per script for the PRNG part, per (kind, n, predicate, Next order) configuration for the enumerated part, whose scripts are counted in two.exhaustive_scripts.",
+		Rule: "four families. (1) single iterator: spec = base constructor (every constructor of package iterator, fp.IteratorOfSeq/Option/GoMap/GoSet, seq/option/try.Iterator, Pull, Generate+Take, the zero value, iterators/Keys/Values of immutable, mutable, UnsafeGoMap/UnsafeGoSet, CopyOnWriteMap, zero fp.Map/fp.Set) over an input of 0..40 ints, 0..3 stacked combinators (Take, TakeWhile, Drop, DropWhile, Filter, FilterNot, TapEach, Appended, Concat in 4 shapes, Map, FlatMap, iterator.Map/FlatMap/FilterMap/Flatten/Concat/Scan/Lift/Compose/Pull/ToList round trips, one side of Duplicate/Span/Partition, Ap/Map2/Flap/Method1 with a twin-drain reference) and optionally a typed final Zip/Zip3/ZipWithIndex; the script calls HasNext 0..3 times before every Next (0 = Next without HasNext), then after exhaustion alternates HasNext (must stay false) and Next (must panic). Reference: plain-slice semantics; canonical drain of an identically built twin where the combinator shares a single-use operand or the order is the trie's; multiset with no-duplicate/no-skip for Go-map-backed iterators. (2) zero value: every method of fp.Iterator[int]{} and every package function applied to it must behave as on an empty iterator without panicking (only Next may panic). (3) two-sided: Duplicate/Span/Partition over an instrumented source; events (side, HasNext|Next); batches 0..7 enumerate, for every n <= 4, every predicate mask and every interleaving of the two sides' Next events, every assignment of a HasNext pattern (none / own side once / own side twice / other side then own side) to each Next event (3 patterns in quick for 8-event scripts, 4 otherwise); the other batches draw PRNG scripts for n <= 40 with runs, probes of Next on an exhausted side and a final drain in either order. Both sides must deliver their reference sequences in order, the source must be pulled exactly n times once both sides are drained and never at exhaustion. (4) adversarial shapes (appended batches): the same protocol script over iterators whose backing structure has internal shape, built adversarially: immutable Map.Iterator/Keys/Values and Set.Iterator over tries built by varargs constructor, builder and persistent Updated/Incl, optionally followed by Removed/Excl down to 0/1/7/8/9/15/16/17 entries, with hashers hash.Number, identity, multiplicative, low-5-bit, constant, high-5-bit, top-2-bit, top-1-bit, k/2..k/5 (full 32-bit collisions of 2..5 keys) and key sets whose hashes agree in the low 30 / 31 bits (int keys 2^30, 2^31, 3*2^30 apart), in the low 10/15/20/25 bits, dense 9..1000, one root slot with 9..32 children (reference: the structure's own order from a canonical drain of a second iterator, which must be a permutation of a plain-Go model; the trie walker hook measures depth and node kinds); slice iterators over sub-slices of a larger backing array with spare capacity (0, 1, 8, 9, 1000 elements, nil); iterator.FromList/List over Seq-backed, cons, lazy (Generate, GenerateFrom, Range, Map, Collect, Combine, Concat, FilterMap, MakeList) lists; every Go-map-backed iterator over maps of 0, 1, 8, 9, 1000 entries, with runtime.GC() between the HasNext calls and Next at up to three script positions. Each shape batch first enumerates all (kind x shape class x build / removal / gc) combinations with PRNG parameters, then draws 1500 (thorough 6000) PRNG combinations. distinct_nontrivial counts distinct fingerprints of (family 1) kind chain + HasNext pattern with at least one redundant HasNext and non-empty reference, and (family 3) kind + n + predicate + event script in which the leading side (the one with more Next calls) changes at least once — per script for the PRNG part, per (kind, n, predicate, Next order) configuration for the enumerated part, whose scripts are counted in two.exhaustive_scripts — and (family 4) kind + shape class + build + hasher + sizes + HasNext pattern with at least one redundant HasNext.",
 		Assumptions: []string{
 			"callbacks are pure; elements are ints or pairs of ints",
 			"family 1 and the n <= 40 part of family 3 are PRNG samples; only the n <= 4 two-sided scripts are enumerated",
+			"family 4: the hashers are lawful (equal keys hash equally; Eqv is ==) and deterministic; the iteration order of a trie is not specified, so the reference order is the structure's own canonical drain, which must be a permutation of the plain-Go model; lazy-list generators are pure",
 			"Next without a preceding HasNext is exercised only where an element exists (the statement promises Next after a true HasNext); a failure there would be keyed separately (/blind-next-wrong)",
 		},
 		Floors: func(tier string) map[string]int64 {
 			fl := map[string]int64{"scripts.single": 10000, "scripts.redundant_hasnext": 5000, "scripts.blind_next": 1000, "probes.exhausted_next": 20000,
-				"two.scripts": 100000, "two.exhaustive_scripts": 400000, "two.random_scripts": 5000, "zero.cases": 100, "distinct": 5000, "two.lead_changes": 100000}
+				"two.scripts": 100000, "two.exhaustive_scripts": 400000, "two.random_scripts": 5000, "zero.cases": 100, "distinct": 5000, "two.lead_changes": 100000,
+				// family 4: the adversarial shapes were really built (trie census of hook immutable.VerifCheck) and driven
+				"shape.scripts": 8000, "shape.scripts.trie": 4000, "shape.scripts.seq": 800, "shape.scripts.list": 1200, "shape.scripts.gomap": 1800,
+				"shape.trie.depth7": 500, "shape.trie.depth3plus": 1000, "shape.trie.with_collision_leaf": 500, "shape.trie.with_hash_array_node": 200, "shape.trie.with_bitmap_node": 1000,
+				"shape.trie.after_removals": 1000, "shape.trie.entries_gt32": 300, "shape.trie.entries_1000": 10, "shape.trie.array_root": 50,
+				"shape.seq.spare_capacity": 500, "shape.list.lazy": 500, "shape.list.strict": 200, "shape.list.n1000": 100, "shape.gomap.n1000": 100, "shape.gc_between_hasnext_and_next": 1000}
 			for _, n := range allHitNames() {
 				fl["hit."+n] = 1
 			}
